@@ -13,6 +13,16 @@ CHECKS = {
     note='Bounds and stubs are listed in evidence (bounds, outside_claim). Trusted: z3, the symx proxies and stdlib '
          'models (datetime, Decimal.__str__, float rounding), validated on every explored path against the real code. '
          'Outside: Double, ByteArray codecs, Uuid, locale/strftime formats, serialize_as=sec.. variants.'),
+ 'C05': dict(
+    cat='model_checking', ref='DESIGN.md section 4 (C05)',
+    text='The real soft-validation code of the XML text path (from_element on an element stub), the dict-document native '
+         'path (_from_dict_value/_doc_to_object) and the HttpRpc flat path (_to_native_values) is executed with the '
+         'text/number/occurrence count as solver variables; accepted(value) == reference-facet-semantics(value) is proved '
+         'for every value inside the bounds for a grid of constraint combinations, and a rejected value must raise a '
+         'Client fault. Agreement between protocol families follows from the shared oracle.',
+    note='Facet grid (fixed list of customised types) and text alphabets are bounds listed in evidence. The reference '
+         'semantics of facets is transcribed from XML Schema Part 2. lxml parsing itself is outside (the stub carries the '
+         'text; the native replay uses real lxml elements).'),
 }
 
 NOT_APPLICABLE = {
